@@ -3,7 +3,7 @@
 # to a scratch worktree of /repo HEAD and the quick tier of the check that should catch it is run against it.
 # Prints one line per change; exits 1 if a change expected to be caught is missed.
 export GOFLAGS=-mod=mod GOPROXY=off GOSUMDB=off GOTOOLCHAIN=local
-cd /verif
+cd "$(dirname "$0")/.."; HERE=$(pwd)
 MISS=0
 for D in seeded/* mutants/*; do
   [ -f "$D/patch.diff" ] || continue
@@ -22,6 +22,6 @@ for D in seeded/* mutants/*; do
   echo "$D: check=$PROP expected=$EXPECT result=$R $SIGS"
   if [ "$EXPECT" = caught ] && [ "$R" != caught ]; then MISS=$((MISS+1)); fi
 done
-rm -f /verif/replays/*.json
+rm -f "$HERE"/replays/*.json
 echo "missed-but-expected: $MISS"
 [ $MISS -eq 0 ]
